@@ -43,7 +43,8 @@ def main():
         res["baseline_rc"] = b.returncode
         for p in props:
             env = dict(os.environ, VERIF_EVIDENCE_DIR="/tmp/seedtest_evidence")
-            r = sh(["/venv/bin/python", os.path.join(VERIF, "harness", "vcheck.py"), "--property", p, "--tier", "quick"], cwd=VERIF, env=env)
+            extra = ["--no-build"] if os.environ.get("VERIF_NO_BUILD") else []      # (developer shortcut while proofs are being reworked)
+            r = sh(["/venv/bin/python", os.path.join(VERIF, "harness", "vcheck.py"), "--property", p, "--tier", "quick"] + extra, cwd=VERIF, env=env)
             out = r.stdout.decode()
             vio = [l for l in out.splitlines() if l.startswith("VIOLATION") or l.startswith("KNOWN-FINDING") or l.startswith("INFRA")]
             res[p] = {"rc": r.returncode, "lines": vio, "tail": out.strip().splitlines()[-1] if out.strip() else ""}
